@@ -404,55 +404,93 @@ deriving Repr
 def writeFile (filename : Option PyStr) (svg : List Piece) : Drawing :=
   ⟨svg, filename.map fun f => (f ++ py!".svg", render svg)⟩
 
+/-- `n`, the entries after `adjacency.eliminate_zeros()`, and the resolved `directed` flag -/
+def graphN (a : GraphArgs) : Nat := if a.hasAdj then a.n else a.pos.length
+def graphEs (a : GraphArgs) : List Entry := (if a.hasAdj then a.entries else []).filter fun e => e.2.2 ≠ 0
+def graphDirected (a : GraphArgs) : Bool :=
+  match a.directed with
+  | some d => d
+  | none => !isSymmetric (graphN a) (graphEs a)
+
+/-- `rescale(...)` followed by `position *= scale` -/
+def finalPos (a : GraphArgs) : Except PyErr (List (Rat × Rat)) := do
+  let pos ← rescale a.pos a.width a.height a.lay (a.names.map fun l => l.map List.length) a.namePos
+  pure (pos.map fun p => (p.1 * a.lay.scale, p.2 * a.lay.scale))
+
+/-- `edge_color` when it is `None` -/
+def defaultEdgeColor (edgeColor : Option PyStr) (noNames : Bool) : PyStr :=
+  match edgeColor with
+  | some c => c
+  | none => if noNames then py!"black" else py!"gray"
+
+/-- one edge of `visualize_graph` -/
+def graphEdge (ν : Nums) (directed : Bool) (pos : List (Rat × Rat)) (slot : Nat → Slot) (k i j : Nat)
+    (color : PyStr) : List Piece :=
+  if directed then svgEdgeDirected (pos.getD i (0, 0)) (pos.getD j (0, 0)) (fun t => ν (slot t) k 0) color
+  else svgEdge (fun t => ν (slot t) k 0) color
+
+/-- `for ix in edge_order:` -/
+def storedEdges (ν : Nums) (directed : Bool) (es : List Entry) (pos : List (Rat × Rat)) (ec : EdgeColors) :
+    Except PyErr (List Piece) :=
+  ec.order.foldlM (fun out ix =>
+    if ix ≥ es.length then .error PyErr.indexError
+    else
+      let e := es.getD ix (0, 0, 0)
+      if e.1 ≥ pos.length ∨ e.2.1 ≥ pos.length then .error PyErr.indexError
+      else .ok (out ++ graphEdge ν directed pos Slot.edge ix e.1 e.2.1 (ec.colors.getD ix []))) []
+
+/-- `for i, j, color in edge_colors_residual:` -/
+def residEdges (ν : Nums) (directed : Bool) (pos : List (Rat × Rat)) (residual : List (Nat × Nat × PyStr)) :
+    List Piece :=
+  (List.range residual.length).flatMap fun k =>
+    let r := residual.getD k (0, 0, [])
+    graphEdge ν directed pos Slot.redge k r.1 r.2.1 r.2.2
+
+/-- the `if display_edges:` block of `visualize_graph` -/
+def graphEdges (ν : Nums) (a : GraphArgs) (pos : List (Rat × Rat)) : Except PyErr (List Piece) :=
+  if a.displayEdges then do
+    let ec ← getEdgeColors (graphN a) (graphN a) (graphEs a) a.edgeLabels
+      (defaultEdgeColor a.edgeColor a.names.isNone) a.labelColors
+    let stored ← storedEdges ν (graphDirected a) (graphEs a) pos ec
+    pure ((if graphDirected a then (dedup ec.colors).flatMap svgMarker else []) ++
+      (stored ++ residEdges ν (graphDirected a) pos ec.residual))
+  else pure []
+
+/-- `for i in node_order:` -/
+def graphNodes (ν : Nums) (nodeOrder : List Nat) (npos : Nat) (probs : Option Probs) (nodeColors : List PyStr) :
+    Except PyErr (List Piece) :=
+  nodeOrder.foldlM (fun out i =>
+    if i ≥ npos then .error PyErr.indexError
+    else match nodeShape ν 0 i probs nodeColors with
+      | .ok s => .ok (out ++ s)
+      | .error e => .error e) []
+
+/-- `if names is not None: for i in range(n): …` -/
+def namesText (ν : Nums) (side n : Nat) (names : Option (List PyStr)) (np : NamePos) : Except PyErr (List Piece) :=
+  match names with
+  | some names => textLoop ν side n names np
+  | none => pure []
+
+/-- header with one (`graph`) or two (`bigraph`, dendrograms) blanks before `xmlns` -/
+def svgHeader (ν : Nums) (twoBlanks : Bool) : List Attr :=
+  [att py!"width" (ν .w 0 0), att py!"height" (ν .h 0 0),
+   (if twoBlanks then att2 py!"xmlns" xmlns else att py!"xmlns" xmlns)]
+
+/-- `<svg …>\n` body `</svg>\n` -/
+def svgDoc (ν : Nums) (twoBlanks newlines : Bool) (body : List Piece) : List Piece :=
+  .otag py!"svg" (svgHeader ν twoBlanks) [] ::
+    ((if newlines then [.chr 10] else []) ++ (body ++ (.ctag py!"svg" [] :: (if newlines then [.chr 10] else []))))
+
 def visualizeGraph (ν : Nums) (a : GraphArgs) : Except PyErr Drawing := do
   -- check adjacency
   if ¬ a.hasAdj ∧ ¬ a.hasPos then throw .valueError
-  let n := if a.hasAdj then a.n else a.pos.length
-  let entries := if a.hasAdj then a.entries else []
-  -- adjacency.eliminate_zeros()
-  let es := entries.filter fun e => e.2.2 ≠ 0
-  let directed := match a.directed with
-    | some d => d
-    | none => !isSymmetric n es
-  let nodeOrder := a.nodeOrder.getD (List.range n)
+  let n := graphN a
   let nodeColors ← getNodeColors ν 0 n a.labels a.scores a.probs.isSome a.nodeColor a.labelColors
-  let pos ← rescale a.pos a.width a.height a.lay (a.names.map fun l => l.map List.length) a.namePos
-  let pos := pos.map fun p => (p.1 * a.lay.scale, p.2 * a.lay.scale)
-  let header : List Piece :=
-    [.otag py!"svg" [att py!"width" (ν .w 0 0), att py!"height" (ν .h 0 0), att py!"xmlns" xmlns] [], .chr 10]
-  -- edges
-  let edges : List Piece ←
-    if a.displayEdges then do
-      let edgeColor := match a.edgeColor with
-        | some c => c
-        | none => if a.names.isNone then py!"black" else py!"gray"
-      let ec ← getEdgeColors n n es a.edgeLabels edgeColor a.labelColors
-      let markers := if directed then (dedup ec.colors).flatMap svgMarker else []
-      let stored ← ec.order.foldlM (fun out ix => do
-        if ix ≥ es.length then throw PyErr.indexError
-        let e := es.getD ix (0, 0, 0)
-        if e.1 ≥ pos.length ∨ e.2.1 ≥ pos.length then throw PyErr.indexError
-        let color := ec.colors.getD ix []
-        pure (out ++ (if directed then
-            svgEdgeDirected (pos.getD e.1 (0, 0)) (pos.getD e.2.1 (0, 0)) (fun t => ν (.edge t) ix 0) color
-          else svgEdge (fun t => ν (.edge t) ix 0) color))) []
-      let resid := (List.range ec.residual.length).flatMap fun k =>
-        let (i, j, color) := ec.residual.getD k (0, 0, [])
-        if directed then svgEdgeDirected (pos.getD i (0, 0)) (pos.getD j (0, 0)) (fun t => ν (.redge t) k 0) color
-        else svgEdge (fun t => ν (.redge t) k 0) color
-      pure (markers ++ (stored ++ resid))
-    else pure []
-  -- nodes
-  let nodes ← nodeOrder.foldlM (fun out i => do
-    if i ≥ pos.length then throw PyErr.indexError
-    let s ← nodeShape ν 0 i a.probs nodeColors
-    pure (out ++ s)) []
-  -- text
-  let text ← match a.names with
-    | some names => textLoop ν 0 n names a.namePos
-    | none => pure []
-  let svg := header ++ (edges ++ (nodes ++ (text ++ [.ctag py!"svg" [], .chr 10])))
-  pure (writeFile a.filename svg)
+  let pos ← finalPos a
+  let edges ← graphEdges ν a pos
+  let nodes ← graphNodes ν (a.nodeOrder.getD (List.range n)) pos.length a.probs nodeColors
+  let text ← namesText ν 0 n a.names a.namePos
+  pure (writeFile a.filename (svgDoc ν false true (edges ++ (nodes ++ text))))
 
 /-! ### `visualize_bigraph` -/
 
@@ -480,50 +518,52 @@ structure BigraphArgs where
 deriving Repr
 
 def nodeLoop (ν : Nums) (side n : Nat) (probs : Option Probs) (colors : List PyStr) : Except PyErr (List Piece) :=
-  (List.range n).foldlM (fun out i => do
-    let s ← nodeShape ν side i probs colors
-    pure (out ++ s)) []
+  (List.range n).foldlM (fun out i =>
+    match nodeShape ν side i probs colors with
+    | .ok s => .ok (out ++ s)
+    | .error e => .error e) []
 
 /-- `np.array(list(scores.values()))` : when both sides have scores, a dict loses its keys -/
 def dictToArray : Option Scores → Option Scores
   | some (.dict keys) => some (.arr keys.length false)
   | s => s
 
+/-- the entries after `biadjacency.eliminate_zeros()` -/
+def bigraphEs (a : BigraphArgs) : List Entry := a.entries.filter fun e => e.2.2 ≠ 0
+
+/-- `for ix in edge_order:` of `visualize_bigraph` -/
+def bistoredEdges (ν : Nums) (es : List Entry) (ec : EdgeColors) : Except PyErr (List Piece) :=
+  ec.order.foldlM (fun out ix =>
+    if ix ≥ es.length then .error PyErr.indexError
+    else .ok (out ++ svgEdge (fun t => ν (.edge t) ix 0) (ec.colors.getD ix []))) []
+
+def biresidEdges (ν : Nums) (residual : List (Nat × Nat × PyStr)) : List Piece :=
+  (List.range residual.length).flatMap fun k =>
+    svgEdge (fun t => ν (.redge t) k 0) (residual.getD k (0, 0, [])).2.2
+
+/-- the `if display_edges:` block of `visualize_bigraph` -/
+def bigraphEdges (ν : Nums) (a : BigraphArgs) : Except PyErr (List Piece) :=
+  if a.displayEdges then do
+    let ec ← getEdgeColors a.nRow a.nCol (bigraphEs a) a.edgeLabels
+      (defaultEdgeColor a.edgeColor (a.namesRow.isNone && a.namesCol.isNone)) a.labelColors
+    let stored ← bistoredEdges ν (bigraphEs a) ec
+    pure (stored ++ biresidEdges ν ec.residual)
+  else pure []
+
 def visualizeBigraph (ν : Nums) (a : BigraphArgs) : Except PyErr Drawing := do
-  let (scoresRow, scoresCol) :=
-    if a.scoresRow.isSome ∧ a.scoresCol.isSome then (dictToArray a.scoresRow, dictToArray a.scoresCol)
-    else (a.scoresRow, a.scoresCol)
-  -- biadjacency = biadjacency.copy(); biadjacency.eliminate_zeros()
-  let es := a.entries.filter fun e => e.2.2 ≠ 0
+  let both := a.scoresRow.isSome && a.scoresCol.isSome
+  let scoresRow := if both then dictToArray a.scoresRow else a.scoresRow
+  let scoresCol := if both then dictToArray a.scoresCol else a.scoresCol
   let colorsRow ← getNodeColors ν 0 a.nRow a.labelsRow scoresRow a.probsRow.isSome a.colorRow a.labelColors
   let colorsCol ← getNodeColors ν 1 a.nCol a.labelsCol scoresCol a.probsCol.isSome a.colorCol a.labelColors
   if ¬ truthy a.width ∧ ¬ truthy a.height then throw .valueError
   if a.nRow + a.nCol = 0 then throw .valueError
-  let header : List Piece :=
-    [.otag py!"svg" [att py!"width" (ν .w 0 0), att py!"height" (ν .h 0 0), att2 py!"xmlns" xmlns] [], .chr 10]
-  let edges : List Piece ←
-    if a.displayEdges then do
-      let edgeColor := match a.edgeColor with
-        | some c => c
-        | none => if a.namesRow.isNone ∧ a.namesCol.isNone then py!"black" else py!"gray"
-      let ec ← getEdgeColors a.nRow a.nCol es a.edgeLabels edgeColor a.labelColors
-      let stored ← ec.order.foldlM (fun out ix => do
-        if ix ≥ es.length then throw PyErr.indexError
-        pure (out ++ svgEdge (fun t => ν (.edge t) ix 0) (ec.colors.getD ix []))) []
-      let resid := (List.range ec.residual.length).flatMap fun k =>
-        svgEdge (fun t => ν (.redge t) k 0) (ec.residual.getD k (0, 0, [])).2.2
-      pure (stored ++ resid)
-    else pure []
+  let edges ← bigraphEdges ν a
   let nodesRow ← nodeLoop ν 0 a.nRow a.probsRow colorsRow
   let nodesCol ← nodeLoop ν 1 a.nCol a.probsCol colorsCol
-  let textRow ← match a.namesRow with
-    | some names => textLoop ν 0 a.nRow names .left
-    | none => pure []
-  let textCol ← match a.namesCol with
-    | some names => textLoop ν 1 a.nCol names .right
-    | none => pure []
-  let svg := header ++ (edges ++ (nodesRow ++ (nodesCol ++ (textRow ++ (textCol ++ [.ctag py!"svg" [], .chr 10])))))
-  pure (writeFile a.filename svg)
+  let textRow ← namesText ν 0 a.nRow a.namesRow .left
+  let textCol ← namesText ν 1 a.nCol a.namesCol .right
+  pure (writeFile a.filename (svgDoc ν true true (edges ++ (nodesRow ++ (nodesCol ++ (textRow ++ textCol))))))
 
 /-! ### dendrograms -/
 
@@ -588,37 +628,45 @@ def dendroText (ν : Nums) (i : Nat) (name : PyStr) (rotate rotateNames : Bool) 
         att2 py!"font-size" (ν (.dtext 4) i 0)] []
   tag :: (escape name ++ [.ctag py!"text" []])
 
+/-- the name loop: `for i in range(n): x, y = position[i]; … names[i]` -/
+def dendroNames (ν : Nums) (a : DendroArgs) (index : List Nat) : Except PyErr (List Piece) :=
+  match a.names with
+  | none => pure []
+  | some names =>
+    (List.range index.length).foldlM (fun out i =>
+      if ¬ index.contains i then .error PyErr.keyError
+      else if i ≥ names.length then .error PyErr.indexError
+      else .ok (out ++ dendroText ν i (names.getD i []) a.rotate a.rotateNames)) []
+
+structure TreeState where
+  out : List Piece
+  position : List (Nat × Unit)
+  label : List (Nat × Nat)
+
+/-- one merge: pop both children, choose the colour, append three paths, push the new node -/
+def dendroStep (ν : Nums) (a : DendroArgs) (n : Nat) (st : TreeState) (t : Nat) : Except PyErr TreeState := do
+  if t ≥ a.merges.length then throw PyErr.indexError
+  let (i, j) := a.merges.getD t (0, 0)
+  let (_, position) ← dpop st.position i
+  let (_, position) ← dpop position j
+  let (l1, label) ← dpop st.label i
+  let (l2, label) ← dpop label j
+  let lineColor ← if l1 = l2 then modIndex a.colors l1 else pure a.color
+  pure ⟨st.out ++ dendroPaths ν t lineColor, dset position (n + t) (), dset label (n + t) l1⟩
+
+/-- the tree loop: `for t in range(n - 1):` -/
+def dendroTree (ν : Nums) (a : DendroArgs) (index : List Nat) : Except PyErr (List Piece) := do
+  let n := index.length
+  let st ← (List.range (n - 1)).foldlM (dendroStep ν a n)
+    ⟨[], index.map fun k => (k, ()), tab a.cutLabels.length fun i => (i, a.cutLabels.getD i 0)⟩
+  pure st.out
+
 /-- `svg_dendrogram_top` / `svg_dendrogram_left` (they differ in the numbers and in the text template) -/
 def svgDendrogram (ν : Nums) (a : DendroArgs) : Except PyErr (List Piece) := do
   let index ← getIndex a.merges a.reorder
-  let n := index.length
-  let position0 : List (Nat × Unit) := index.map fun k => (k, ())
-  let label0 : List (Nat × Nat) := tab a.cutLabels.length fun i => (i, a.cutLabels.getD i 0)
-  let header : List Piece :=
-    [.otag py!"svg" [att py!"width" (ν .w 0 0), att py!"height" (ν .h 0 0), att2 py!"xmlns" xmlns] []]
-  -- text
-  let text ← match a.names with
-    | none => pure []
-    | some names =>
-      (List.range n).foldlM (fun out i => do
-        if ¬ position0.any (·.1 = i) then throw PyErr.keyError
-        if i ≥ names.length then throw PyErr.indexError
-        pure (out ++ dendroText ν i (names.getD i []) a.rotate a.rotateNames)) []
-  -- tree
-  let (paths, _, _) ← (List.range (n - 1)).foldlM
-    (fun (st : List Piece × List (Nat × Unit) × List (Nat × Nat)) t => do
-      let (out, position, label) := st
-      if t ≥ a.merges.length then throw PyErr.indexError
-      let (i, j) := a.merges.getD t (0, 0)
-      let (_, position) ← dpop position i
-      let (_, position) ← dpop position j
-      let (l1, label) ← dpop label i
-      let (l2, label) ← dpop label j
-      let lineColor ←
-        if l1 = l2 then modIndex a.colors l1 else pure a.color
-      pure (out ++ dendroPaths ν t lineColor, dset position (n + t) (), dset label (n + t) l1))
-    ([], position0, label0)
-  pure (header ++ (text ++ (paths ++ [.ctag py!"svg" []])))
+  let text ← dendroNames ν a index
+  let paths ← dendroTree ν a index
+  pure (svgDoc ν true false (text ++ paths))
 
 def visualizeDendrogram (ν : Nums) (a : DendroArgs) : Except PyErr Drawing := do
   let svg ← svgDendrogram ν a
